@@ -123,8 +123,8 @@ int main(int argc, char** argv) {
       if (onlyv && atoi(onlyv) != variant) continue;
       fe::Program prog;
       vh::Rng pr(ps);
-      // below and above the executor's minimum window (MinDelta = 1280) so that windowing is exercised in free runs
-      int nInit = ctl ? 2 + (int)pr.below(5) : (p % 3 == 2 ? 1500 + (int)pr.below(600) : 3 + (int)pr.below(80));
+      // below the minimum window (MinDelta = 1280) and between two windows and one window per thread (2560 .. 1280 * threads), where the block-interleaved numbering of the work depends on window and thread count
+      int nInit = ctl ? 2 + (int)pr.below(5) : (p % 3 == 2 ? 2600 + (int)pr.below(1200) : 3 + (int)pr.below(80));
       fe::genProgram(prog, pr, nInit, nInit > 500 ? 60 + (int)pr.below(60) : 1 + (int)pr.below(ctl ? 3 : 5), nInit > 500 ? 1 : 2, 2, false, false, 0);
       for (int r = 0; r < runs; ++r) {
         fe::RunCfg rc;
